@@ -106,6 +106,7 @@ func (r *run) twoPhase(twinDir string, only *replayIn) {
 	if only != nil {
 		rounds = 1
 	}
+rounds:
 	for round := 0; round < rounds; round++ {
 		competing := (r.idx+round)%2 == 1
 		if only != nil {
@@ -113,7 +114,7 @@ func (r *run) twoPhase(twinDir string, only *replayIn) {
 		}
 		blocks := r.roundBlocks(round, competing)
 		if len(blocks) == 0 {
-			return
+			break rounds
 		}
 		between := 1
 		if competing {
@@ -134,7 +135,9 @@ func (r *run) twoPhase(twinDir string, only *replayIn) {
 			digests = append(digests, resultDigest(&res))
 		}
 		if !okExec {
-			return
+			x.Fail("preexec-changed:next-block-execution", "the next block executes after a round of ExecuteBlock; pre-executions; SubmitBlock",
+				replayIn{Extra: r.extra, Between: between}, "ExecuteBlock failed", "executes")
+			break rounds
 		}
 		steps := r.betweenSteps()
 		if only != nil {
@@ -178,7 +181,7 @@ func (r *run) twoPhase(twinDir string, only *replayIn) {
 		if err != nil {
 			x.Fail("preexec-changed:submit-after-preexec", "SubmitBlock accepts the executed block after pre-executions",
 				replayIn{Extra: r.extra, Between: between}, err.Error(), "nil")
-			return
+			break rounds
 		}
 		c.ethNonce[c.ethAddrs[0]]++
 		recs = append(recs, roundRec{blocks: blocks, submit: sub})
